@@ -7,6 +7,7 @@ pub mod c06;
 pub mod c07;
 pub mod c08;
 pub mod c09;
+pub mod c10;
 pub mod c11;
 pub mod c12;
 pub mod c13;
@@ -31,6 +32,7 @@ pub fn dispatch(cfg: &Cfg) -> i32 {
         "C07" => c07::run(cfg),
         "C08" => c08::run(cfg),
         "C09" => c09::run(cfg),
+        "C10" => c10::run(cfg),
         "C11" => c11::run(cfg),
         "C12" => c12::run(cfg),
         "C13" => c13::run(cfg),
